@@ -15,7 +15,7 @@ FN = 'yui_matrix::sparse::decomp::col_intersects'
 
 
 def sk(t):
-    return re.sub(r'#\d+\.\d+', '', show(t, -1000))
+    return re.sub(r'#(?:i\d+:)?\d+\.\d+', '', show(t, -1000))
 
 
 def prov(t, pre_of, depth=0):
